@@ -6,7 +6,7 @@
 From Coq Require Import ZArith List Bool.
 From Flocq Require Import Core.Core IEEE754.BinarySingleNaN IEEE754.Binary IEEE754.Bits.
 Import ListNotations.
-Require Import SZV.Base.FloatOps SZV.Model.Quant SZV.Model.QuantFloat SZV.Model.TimeStep.
+Require Import SZV.Base.FloatOps SZV.Model.Quant SZV.Model.QuantFloat SZV.Model.TimeStep SZV.Model.Clamp.
 Local Open Scope Z_scope.
 
 (* ---------------- float ---------------- *)
@@ -107,6 +107,26 @@ Definition ts_run_d (n:nat) (rs:list rstep) :=
   let h0 := repeat 0 n in
   let '(ws, recs, hf) := d_enc_run h0 ss in
   (recs, hf, d_run_flags h0 ss, match d_dec_run h0 ws with Some (r', h') => (if list_eq_dec (list_eq_dec Z.eq_dec) r' recs then true else false) | None => false end).
+
+(* with value-range protection the decompressor hands out each reconstruction clamped to [min, max] of the step's data (recorded in
+   the step's header); the history buffers keep the unclamped values, so prediction is not affected *)
+Definition f_out1 (data recs:list Z) : list Z :=
+  match data with
+  | [] => recs
+  | x0 :: rest => let '(mn, mx) := fminmax (F x0) (F x0) rest in map (fun r => Fb (clamp32 mn mx (F r))) recs
+  end.
+Definition d_out1 (data recs:list Z) : list Z :=
+  match data with
+  | [] => recs
+  | x0 :: rest => let '(mn, mx) := dminmax (D x0) (D x0) rest in map (fun r => Db (clamp64 mn mx (D r))) recs
+  end.
+Fixpoint ts_out (out1:list Z -> list Z -> list Z) (rs:list rstep) (recs:list (list Z)) : list (list Z) :=
+  match rs, recs with
+  | r :: rs', rc :: recs' => let '(_, _, _, _, _, _, data) := r in out1 data rc :: ts_out out1 rs' recs'
+  | _, _ => recs
+  end.
+Definition ts_out_f (protect:bool) rs recs := if protect then ts_out f_out1 rs recs else recs.
+Definition ts_out_d (protect:bool) rs recs := if protect then ts_out d_out1 rs recs else recs.
 
 (* the pre-repair run of the float instance (for the refutation witness) *)
 Definition f_enc_run_old := enc_run_old Z 0 fctx fpred1 fquant1 fexact ftctx ft_quant ft_exact.
